@@ -90,9 +90,6 @@ impl<'u, 'de> serde::Deserializer<'de> for &'u mut URLEncodedDeserializer<'de> {
     /// when the visitor visits value of unkown key
     fn deserialize_ignored_any<V>(self, visitor: V) -> Result<V::Value, Self::Error>
     where V: serde::de::Visitor<'de> {
-        #[cfg(debug_assertions)] {
-            assert!(matches!(self.side, ParsingSide::Value));
-        }
         let _ = self.next_section();
 
         self.side = ParsingSide::Key;
@@ -252,10 +249,6 @@ impl<'u, 'de> serde::Deserializer<'de> for &'u mut URLEncodedDeserializer<'de> {
 
     fn deserialize_bytes<V>(self, visitor: V) -> Result<V::Value, Self::Error>
     where V: serde::de::Visitor<'de> {
-        #[cfg(debug_assertions)] {
-            assert!(self.side == ParsingSide::Value);
-        }
-
         match percent_decode(self.next_section()?) {
             Cow::Borrowed(slice) => visitor.visit_bytes(slice),
             Cow::Owned(byte_vec) => visitor.visit_byte_buf(byte_vec),
@@ -263,19 +256,11 @@ impl<'u, 'de> serde::Deserializer<'de> for &'u mut URLEncodedDeserializer<'de> {
     }
     fn deserialize_byte_buf<V>(self, visitor: V) -> Result<V::Value, Self::Error>
     where V: serde::de::Visitor<'de> {
-        #[cfg(debug_assertions)] {
-            assert!(self.side == ParsingSide::Value);
-        }
-
         self.deserialize_bytes(visitor)
     }
 
     fn deserialize_bool<V>(self, visitor: V) -> Result<V::Value, Self::Error>
     where V: serde::de::Visitor<'de> {
-        #[cfg(debug_assertions)] {
-            assert!(self.side == ParsingSide::Value);
-        }
-
         match self.next_section()? {
             b"true"  => visitor.visit_bool(true),
             b"false" => visitor.visit_bool(false),
@@ -288,10 +273,6 @@ impl<'u, 'de> serde::Deserializer<'de> for &'u mut URLEncodedDeserializer<'de> {
 
     fn deserialize_f32<V>(self, visitor: V) -> Result<V::Value, Self::Error>
     where V: serde::de::Visitor<'de> {
-        #[cfg(debug_assertions)] {
-            assert!(self.side == ParsingSide::Value);
-        }
-
         let section = self.next_section()?;
         let section = std::str::from_utf8(section)
             .map_err(|_| serde::de::Error::custom(
@@ -305,10 +286,6 @@ impl<'u, 'de> serde::Deserializer<'de> for &'u mut URLEncodedDeserializer<'de> {
     }
     fn deserialize_f64<V>(self, visitor: V) -> Result<V::Value, Self::Error>
     where V: serde::de::Visitor<'de> {
-        #[cfg(debug_assertions)] {
-            assert!(self.side == ParsingSide::Value);
-        }
-
         let section = self.next_section()?;
         let section = std::str::from_utf8(section)
             .map_err(|_| serde::de::Error::custom(
@@ -323,10 +300,6 @@ impl<'u, 'de> serde::Deserializer<'de> for &'u mut URLEncodedDeserializer<'de> {
 
     fn deserialize_i8<V>(self, visitor: V) -> Result<V::Value, Self::Error>
     where V: serde::de::Visitor<'de> {
-        #[cfg(debug_assertions)] {
-            assert!(self.side == ParsingSide::Value);
-        }
-
         let section = self.next_section()?;
         let section = std::str::from_utf8(section)
             .map_err(|_| serde::de::Error::custom(
@@ -340,10 +313,6 @@ impl<'u, 'de> serde::Deserializer<'de> for &'u mut URLEncodedDeserializer<'de> {
     }
     fn deserialize_i16<V>(self, visitor: V) -> Result<V::Value, Self::Error>
     where V: serde::de::Visitor<'de> {
-        #[cfg(debug_assertions)] {
-            assert!(self.side == ParsingSide::Value);
-        }
-
         let section = self.next_section()?;
         let section = std::str::from_utf8(section)
             .map_err(|_| serde::de::Error::custom(
@@ -357,10 +326,6 @@ impl<'u, 'de> serde::Deserializer<'de> for &'u mut URLEncodedDeserializer<'de> {
     }
     fn deserialize_i32<V>(self, visitor: V) -> Result<V::Value, Self::Error>
     where V: serde::de::Visitor<'de> {
-        #[cfg(debug_assertions)] {
-            assert!(self.side == ParsingSide::Value);
-        }
-
         let section = self.next_section()?;
         let section = std::str::from_utf8(section)
             .map_err(|_| serde::de::Error::custom(
@@ -374,10 +339,6 @@ impl<'u, 'de> serde::Deserializer<'de> for &'u mut URLEncodedDeserializer<'de> {
     }
     fn deserialize_i64<V>(self, visitor: V) -> Result<V::Value, Self::Error>
     where V: serde::de::Visitor<'de> {
-        #[cfg(debug_assertions)] {
-            assert!(self.side == ParsingSide::Value);
-        }
-
         let section = self.next_section()?;
         let section = std::str::from_utf8(section)
             .map_err(|_| serde::de::Error::custom(
@@ -392,10 +353,6 @@ impl<'u, 'de> serde::Deserializer<'de> for &'u mut URLEncodedDeserializer<'de> {
 
     fn deserialize_u8<V>(self, visitor: V) -> Result<V::Value, Self::Error>
     where V: serde::de::Visitor<'de> {
-        #[cfg(debug_assertions)] {
-            assert!(self.side == ParsingSide::Value);
-        }
-
         let section = self.next_section()?;
         let section = std::str::from_utf8(section)
             .map_err(|_| serde::de::Error::custom(
@@ -409,10 +366,6 @@ impl<'u, 'de> serde::Deserializer<'de> for &'u mut URLEncodedDeserializer<'de> {
     }
     fn deserialize_u16<V>(self, visitor: V) -> Result<V::Value, Self::Error>
     where V: serde::de::Visitor<'de> {
-        #[cfg(debug_assertions)] {
-            assert!(self.side == ParsingSide::Value);
-        }
-
         let section = self.next_section()?;
         let section = std::str::from_utf8(section)
             .map_err(|_| serde::de::Error::custom(
@@ -426,10 +379,6 @@ impl<'u, 'de> serde::Deserializer<'de> for &'u mut URLEncodedDeserializer<'de> {
     }
     fn deserialize_u32<V>(self, visitor: V) -> Result<V::Value, Self::Error>
     where V: serde::de::Visitor<'de> {
-        #[cfg(debug_assertions)] {
-            assert!(self.side == ParsingSide::Value);
-        }
-
         let section = self.next_section()?;
         let section = std::str::from_utf8(section)
             .map_err(|_| serde::de::Error::custom(
@@ -443,10 +392,6 @@ impl<'u, 'de> serde::Deserializer<'de> for &'u mut URLEncodedDeserializer<'de> {
     }
     fn deserialize_u64<V>(self, visitor: V) -> Result<V::Value, Self::Error>
     where V: serde::de::Visitor<'de> {
-        #[cfg(debug_assertions)] {
-            assert!(self.side == ParsingSide::Value);
-        }
-
         let section = self.next_section()?;
         let section = std::str::from_utf8(section)
             .map_err(|_| serde::de::Error::custom(
